@@ -45,6 +45,8 @@ def encode(c, enc):
         return f"imorph {t} {T.enc_spec(enc, c['other'])} {fs}"
     if op in ("inew", "pnew", "ivalidate", "pvalidate", "itimestamps", "ptimestamps", "nonentries"):
         return f"{op} {t}"
+    if op == "inewe":
+        return f"inewe {t} {enc.otime(c['lo'])} {enc.otime(c['hi'])}"
     if op == "mkitier":
         return f"mkitier {enc.s(c['name'])} {enc.ivlist(c['es'])} {enc.otime(c['lo'])} {enc.otime(c['hi'])}"
     if op == "mkptier":
@@ -119,6 +121,8 @@ def impl(c, objs=None):
         r = T.call(lambda: t.morph(u, ff))
     elif op in ("inew", "pnew"):
         r = T.call(lambda: t.new())
+    elif op == "inewe":
+        r = T.call(lambda: t.new(entries=[], minTimestamp=c["lo"], maxTimestamp=c["hi"]))
     elif op in ("ivalidate", "pvalidate"):
         r = T.call(lambda: t.validate("silence"))
         return r
